@@ -192,8 +192,10 @@ end prod_dim
 namespace cumsum
 def model (s : Shape) (dim : Int) : Option Shape :=
   if s.length = 0 then some s else (normAxis s.length dim).map (fun _ => s)
-def term (r : Nat) (dim : Int) : String :=
-  if r = 0 then tOp "Identity" ["x0"] else tOp "CumSum" ["x0", tI dim] [("exclusive", "0"), ("reverse", "0")]
+/-- `dtype` given → the input is cast BEFORE accumulating (`cast` is the ONNX dtype code). -/
+def term (r : Nat) (dim : Int) (cast : Option Nat := none) : String :=
+  let x := match cast with | some d => tOp "Cast" ["x0"] [("to", toString d)] | none => "x0"
+  if r = 0 then tOp "Identity" [x] else tOp "CumSum" [x, tI dim] [("exclusive", "0"), ("reverse", "0")]
 def spec (s : Shape) (dim : Int) : Option Shape := (torchDim s.length dim).map (fun _ => s)
 end cumsum
 
